@@ -13,8 +13,9 @@ Definition C34_full : Prop := forall (mangle : text -> text) nm pfx s v,
       | _ => mangle nm
       end.
 
-(* Proved for every site except the class-pattern keyword attribute of `match`
-   (S_match_class_kwd, see C34_class_kwd_status): whenever the site yields an
+(* Proved for every site with a plain specification (all but local_macro_name and the
+   prefixed require alias, which follow), including the class-pattern keyword
+   attribute of `match` since the fix 7ce654c: whenever the site yields an
    identifier it is (mangle name), and it does yield one unless the name or its
    mangling is None/True/False, for which _nonconst raises a syntax error. *)
 Theorem C34_sites_emit_mangle_partial : forall (mangle : text -> text) nm pfx s, plain_site s = true ->
@@ -60,8 +61,9 @@ Print Assumptions C34_let_reaches_iff.
 
 (* The class-pattern keyword attribute: either the regenerated site mangles, or
    it emits the raw keyword text, which differs from the mangling for a name
-   such as a-b.  (On the unchanged tree the second alternative is the one that
-   computes: the finding C34-match-class-kwd-unmangled.) *)
+   such as a-b.  (Before the fix 7ce654c the second alternative computed -- the
+   former finding C34-match-class-kwd-unmangled; now the first does, and the site
+   is also covered by C34_sites_emit_mangle_partial.) *)
 Theorem C34_class_kwd_status :
   is_mangled_name (site_expr S_match_class_kwd) = true
   \/ (exists (mangle : text -> text) nm,
